@@ -1004,6 +1004,47 @@ Section WeakList.
     rewrite (history_values_weak s h1 I F1), (history_values_weak s h2 I F2), !combine_map.
     now apply Permutation_map.
   Qed.
+  Lemma be_run_weak h s : Inv W sem s -> Forall (be_op W) h ->
+    Inv W sem (fst (run W sem s h))
+    /\ forall k, wb_input W k = true -> st_cache (fst (run W sem s h)) k = st_cache s k.
+  Proof.
+    intros I F. rewrite (run_g h s F).
+    destruct (be_run W g WF NB2 SO2 h s (proj2 (Inv_guard W sem WF NBW s) I) F) as [I1 K].
+    split; auto. now apply (Inv_guard W sem WF NBW).
+  Qed.
+
+  Lemma evaluate_same_weak s s' n : Inv W sem s -> Inv W sem s' -> n < N ->
+    (forall k, wb_input W k = true -> st_cache s' k = st_cache s k) ->
+    snd (evaluate W sem s' n) = snd (evaluate W sem s n).
+  Proof.
+    intros I I' L E.
+    destruct (evaluate_inv_weak s n I L) as (_ & V & _).
+    destruct (evaluate_inv_weak s' n I' L) as (_ & V' & _).
+    rewrite V, V'. apply spec_ext; auto.
+  Qed.
+
+  (* C05_path_any_range: the same cell reached through ANY two range nodes that
+     contain it, asked at two different moments of a history *)
+  Theorem path_any_range_weak s h r1 cols1 i1 j1 r2 cols2 i2 j2 :
+    Inv W sem s -> Forall (be_op W) h ->
+    r1 < N -> wb_input W r1 = false ->
+    (forall vals, sem r1 vals = sem_formula (FRange cols1) vals) ->
+    0 < cols1 -> j1 < cols1 -> i1 * cols1 + j1 < length (wb_deps W r1) ->
+    r2 < N -> wb_input W r2 = false ->
+    (forall vals, sem r2 vals = sem_formula (FRange cols2) vals) ->
+    0 < cols2 -> j2 < cols2 -> i2 * cols2 + j2 < length (wb_deps W r2) ->
+    nth (i1 * cols1 + j1) (wb_deps W r1) 0 = nth (i2 * cols2 + j2) (wb_deps W r2) 0 ->
+    tuple_at (snd (evaluate W sem s r1)) i1 j1
+    = tuple_at (snd (evaluate W sem (fst (run W sem s h)) r2)) i2 j2.
+  Proof.
+    intros I F L1 I1 S1 C1 J1 H1 L2 I2 S2 C2 J2 H2 E.
+    destruct (be_run_weak h s I F) as [I' K].
+    destruct (path_weak W sem WF NBW SO s r1 cols1 i1 j1 I L1 I1 S1 C1 J1 H1) as [P1 _].
+    destruct (path_weak W sem WF NBW SO _ r2 cols2 i2 j2 I' L2 I2 S2 C2 J2 H2) as [P2 _].
+    cbv zeta in P1, P2. rewrite P1, P2, E.
+    symmetry. apply evaluate_same_weak; auto.
+    apply (deps_ltN W WF r2). auto. apply nth_In. auto.
+  Qed.
 End WeakList.
 
 (* ---- the hypotheses are satisfiable (tests, not theorems): the two-column
@@ -1119,5 +1160,16 @@ Example xl_history_values :
 Proof.
   split; [|vm_compute; reflexivity].
   apply (history_values_weak exaW exa_sem (exa_wf _) (exa_weak _) xo_stored (init exaW) _ xo_inv).
+  repeat constructor; cbn; lia.
+Qed.
+
+(* B2 through B1:B2 (node 2, element (1,0)) now, and through the same range node
+   after a history - the hypotheses of path_any_range_weak are satisfiable *)
+Example xl_path_any_range :
+  tuple_at (snd (evaluate exaW xp_sem (init exaW) 2)) 1 0
+  = tuple_at (snd (evaluate exaW xp_sem (fst (run exaW xp_sem (init exaW) [Evaluate 5; Build 3])) 2)) 1 0.
+Proof.
+  apply (path_any_range_weak exaW xp_sem (exa_wf _) xp_weak xp_stored (init exaW) [Evaluate 5; Build 3]
+           2 1 1 0 2 1 1 0 xp_inv); try (cbn; lia); try reflexivity.
   repeat constructor; cbn; lia.
 Qed.
